@@ -26,6 +26,10 @@ ReadR(w) == [idx |-> w.idx, r |-> w.r, p |-> w.p, a |-> w.a, b |-> w.b, c |-> w.
 WriteR2(r) == [idx |-> r.idx, r |-> r.r, p |-> r.p, a |-> Pr[r.a], b |-> Pr[r.b], c |-> Pr[r.c],
                tmin |-> Pr[r.tmin], tmax |-> Pr[r.tmax], ty |-> r.ty, src |-> r.src]
 
+(* Network.write(..., "krome") followed by the KROME reader: the copy keeps index, species with multiplicity and the window (printed with
+   two decimals); the rate law travels as a Fortran expression (judged numerically by the driver), type and coefficients do not travel *)
+KromeCopy(n) == [k \in DOMAIN n |-> [idx |-> n[k].idx, r |-> SeqBag(n[k].r), p |-> SeqBag(n[k].p), tmin |-> Pr[n[k].tmin], tmax |-> Pr[n[k].tmax]]]
+
 TInit0(pr, n) == Pr = pr /\ net = n /\ file1 = <<>> /\ net2 = <<>> /\ file2 = <<>> /\ net3 = <<>> /\ pc = "write1" /\ modified = FALSE
 
 Write1 == pc = "write1" /\ file1' = [k \in DOMAIN net |-> WriteR(net[k])] /\ pc' = "read1" /\ UNCHANGED <<Pr, net, net2, file2, net3, modified>>
